@@ -304,7 +304,10 @@ func (b *c14b) noise(file, fn string, indent int) {
 func (b *c14b) planted(file, fn, dvar string, indent int) {
 	kinds := []string{"oob", "strlimit", "byteslimit", "illTyped", "notCallable", "oobSel", "strlimitFmt", "strlimitConv", "byteslimitConv", "sliceBad", "iterBad", "unaryBad", "complBad", "selBad", "immutableSet",
 		// the operand of the failing operation is a plain variable (no call in the failing statement)
-		"iterVar", "unaryVar", "indexVar", "sliceVar"}
+		"iterVar", "unaryVar", "indexVar", "sliceVar",
+		// ... or a function literal without explicit return (its constant/closure instruction
+		// has the position of the literal's own implicit return)
+		"iterLit", "unaryLit"}
 	kind := kinds[b.r.Intn(len(kinds))]
 	b.emit(file, fn, "if mk.boom() == "+itoa(b.nextID+1)+" {", indent)
 	parr := b.v()
@@ -321,7 +324,7 @@ func (b *c14b) planted(file, fn, dvar string, indent int) {
 	id := b.marker(file, fn, nextLine, false)
 	call := "mk.mark(" + itoa(id) + ", " + dvar + ")"
 	switch kind {
-	case "iterVar", "unaryVar", "indexVar", "sliceVar":
+	case "iterVar", "unaryVar", "indexVar", "sliceVar", "iterLit", "unaryLit":
 		// the marker call sits on a line of its own; the statement that fails is the next one
 		pv, px, pn := b.v(), b.v(), b.v()
 		b.emit(file, fn, pv+" := \"k\" + string("+call+")", indent+1)
@@ -334,6 +337,11 @@ func (b *c14b) planted(file, fn, dvar string, indent int) {
 			b.emit(file, fn, "}", indent+1)
 		case "unaryVar":
 			b.emit(file, fn, px+" = -"+pv, indent+1)
+		case "iterLit":
+			b.emit(file, fn, "for "+b.v()+" in func() {} {", indent+1)
+			b.emit(file, fn, "}", indent+1)
+		case "unaryLit":
+			b.emit(file, fn, px+" = -func() {}", indent+1)
 		case "indexVar":
 			b.emit(file, fn, px+" = "+px+"["+pv+"]", indent+1)
 		default:
